@@ -16,8 +16,8 @@ from typing import Any, Callable, Dict, List, Optional, Tuple
 
 import z3
 
-from .values import (Factory, T, TAny, TBool, TInt, TNone, TNStr, TOpt, TRec, TSeq, TTup, Unsupported, V, VAny,
-                     VBool, VClass, VExc, VFunc, VInt, VNone, VNStr, VOpt, VRec, VSeq, VTup, fresh_name, parse_type,
+from .values import (Factory, T, TAny, TBool, TInt, TNone, TNStr, TOpt, TRec, TSeq, TSet, TTup, Unsupported, V, VAny,
+                     VBool, VClass, VExc, VFunc, VInt, VNone, VNStr, VOpt, VRec, VSeq, VSet, VTup, fresh_name, parse_type,
                      sort_of, wf_facts)
 
 MAX_CP = 0x10FFFF
@@ -291,6 +291,8 @@ class Engine:
         if isinstance(a, VRec) and isinstance(b, VRec) and a.cls == b.cls: return VRec(a.cls, z3.If(c, a.t, b.t))
         if isinstance(a, VAny) and isinstance(b, VAny): return VAny(z3.If(c, a.t, b.t))
         if isinstance(a, VNone) and isinstance(b, VNone): return a
+        if isinstance(a, VSet) and isinstance(b, VSet):
+            return VSet(lambda x, a=a, b=b, c=c: z3.If(c, a.member(x), b.member(x)))
         if isinstance(a, VTup) and isinstance(b, VTup) and len(a.items) == len(b.items) and a.kind == b.kind:
             return VTup([self.merge(c, x, y) for x, y in zip(a.items, b.items)], a.kind)
         if isinstance(a, (VSeq, VTup)) and isinstance(b, (VSeq, VTup)):
@@ -347,6 +349,13 @@ class Engine:
                 return z3.And(*[self.eq(self.fac.field(a, f), self.fac.field(b, f)) for f in r.fields])
             return a.t == b.t
         if isinstance(a, VAny) and isinstance(b, VAny): return a.t == b.t
+        if isinstance(a, VSet) and isinstance(b, VSet):
+            x = z3.Const(f"e@{self.qdepth}", sort_of("Any"))
+            self.qdepth += 1
+            try:
+                return z3.ForAll([x], a.member(x) == b.member(x))
+            finally:
+                self.qdepth -= 1
         if isinstance(a, VTup) and isinstance(b, VTup):
             if a.kind != b.kind or len(a.items) != len(b.items): return z3.BoolVal(False)
             return z3.And(*[self.eq(x, y) for x, y in zip(a.items, b.items)]) if a.items else z3.BoolVal(True)
@@ -387,6 +396,7 @@ class Engine:
         if isinstance(v, VRec): return self.fac.mk(TRec(v.cls), n)
         if isinstance(v, VAny): return self.fac.mk(TAny(), n)
         if isinstance(v, VNone): return v
+        if isinstance(v, VSet): return self.fac.mk(TSet(), n)
         if isinstance(v, VSeq):
             if v.elt is None:
                 raise Unsupported(f"cannot havoc sequence {base} of unknown element type (declare it in locals_types)")
@@ -493,6 +503,9 @@ class Engine:
         # ghost parameters (closure) of the callee are universally quantified at the call site
         ghost_bound = []
         for gname, gtype in (c.closure or {}).items():
+            if gname in env:
+                env[gname] = self.coerce(env[gname], parse_type(gtype))
+                continue                      # ghost argument supplied by the caller
             gv = self.fac.mk(parse_type(gtype), f"{gname}@{self.qdepth}")
             if not isinstance(gv, (VRec, VAny, VInt, VBool)):
                 raise Unsupported("non-scalar ghost parameter at a call site")
@@ -549,6 +562,14 @@ class Engine:
             ens = self.truthy(self.ev_clause(c.ensures_text(), env2, heap=st.heap))
             facts.append(z3.ForAll(ghost_bound, ens) if ghost_bound else ens)
         self.qdepth -= len(ghost_bound)
+        upd = (c.path_hints or {}).get("updates_argument")
+        if upd and not self.spec_mode:
+            # the callee mutates this parameter in place and returns it: the caller's variable holding the argument
+            # denotes the updated value afterwards (only a plain name is accepted as the actual argument)
+            anode = getattr(self, "_call_arg_nodes", {}).get(upd)
+            if not isinstance(anode, ast.Name):
+                raise Unsupported("in-place updated parameter passed as a non-name expression")
+            st.env[anode.id] = res
         if self.comp_collect is not None:
             self.comp_collect.extend(facts)
             return res
@@ -625,7 +646,12 @@ class Engine:
             if note not in self.dropped:
                 self.dropped.append(note)
             cargs = [self.ev(a, st) for a in cnode.args]
-            return self.call_contract(cc, cargs, st, node.lineno)
+            ckw = {k.arg: self.ev(k.value, st) for k in cnode.keywords if k.arg}     # ghost arguments by name
+            self._call_arg_nodes = dict(zip(self.params_of(cc), cnode.args))
+            try:
+                return self.call_contract(cc, cargs, st, node.lineno, ckw)
+            finally:
+                self._call_arg_nodes = {}
         note = f"expression `{txt[:60]}` abstracted by the ghost term `{g[:60]}`"
         if note not in self.dropped:
             self.dropped.append(note)
@@ -688,6 +714,16 @@ class Engine:
                 raise Unsupported("starred in list display")
             items.append(self.ev(e, st))
         return VTup(items, "list")
+
+    def ev_Set(self, node, st):
+        items = []
+        for e in node.elts:
+            v = self.ev(e, st)
+            if isinstance(v, VOpt): v = v.val
+            if not isinstance(v, VAny):
+                raise Unsupported("set display of non-opaque values")
+            items.append(v.t)
+        return VSet(lambda x, items=items: z3.Or(*[x == it for it in items]) if items else z3.BoolVal(False))
 
     def ev_Dict(self, node, st):
         if len(node.keys) != 1 or node.keys[0] is None:
@@ -800,6 +836,12 @@ class Engine:
                 # Python compares code points lexicographically = SMT-LIB str.< / str.<=
                 return {ast.Lt: a.t < b.t, ast.LtE: a.t <= b.t, ast.Gt: b.t < a.t, ast.GtE: b.t <= a.t}[type(op)]
             raise Unsupported(f"ordering on {a!r}/{b!r}")
+        if isinstance(op, (ast.In, ast.NotIn)) and isinstance(b, VSet):
+            if isinstance(a, VOpt): a = a.val
+            if not isinstance(a, VAny):
+                raise Unsupported("membership of a non-opaque value in a set")
+            r = b.member(a.t)
+            return r if isinstance(op, ast.In) else z3.Not(r)
         if isinstance(op, (ast.In, ast.NotIn)):
             s = self.to_seq(b)
             if s.kind == "str":
@@ -829,6 +871,8 @@ class Engine:
             m = self.method_contract(a.cls, name) if name else None
             if m: return self.call_contract(m, [a, b], st, lineno)
             raise Unsupported(f"operator on record {a.cls}")
+        if isinstance(op, ast.BitOr) and isinstance(a, VSet) and isinstance(b, VSet):
+            return VSet(lambda x, a=a, b=b: z3.Or(a.member(x), b.member(x)))
         if isinstance(op, ast.Add):
             if isinstance(a, (VInt, VBool)) and isinstance(b, (VInt, VBool)):
                 return VInt(self.as_int(a) + self.as_int(b))
@@ -2103,8 +2147,9 @@ class Engine:
                 outs.append(o)
         exit_st = hv.fork()
         g2 = self.truthy(self.ev(s.test, exit_st))
-        exit_st.pc.append(z3.Not(g2))
-        after.append(exit_st)
+        if not is_true(g2):            # `while True:` is only left through return / break / raise
+            exit_st.pc.append(z3.Not(g2))
+            after.append(exit_st)
         return outs + [Outcome("fall", a) for a in after]
 
     def st_Break(self, s, st): return [Outcome("break", st)]
